@@ -121,7 +121,7 @@ Inductive op :=
   | OrderRows (src : op) (by_ rev : list string) (limit : option nat)
   | MapCols (src : op) (m : list (string * string)) (dels : list string)
   | Rename (src : op) (m : list (string * string))                  (* old name -> new name (op.reverse_mapping) *)
-  | NaturalJoin (a b : op) (on_a on_b : list string) (jt : string) (nr : nat)
+  | NaturalJoin (a b : op) (on_a on_b : list string) (jt : string) (nullkeys : bool) (nr : nat)   (* nullkeys: both sides have a row with a null key *)
   | ConcatRows (a b : op) (idcol : option string)
   | ConvertRecords (src : op) (has_in has_out : bool) (mid_cols out_cols : list string) (nr_mid nr : nat).
 
@@ -135,7 +135,7 @@ Fixpoint no_random (p : op) : bool :=
   | Extend s _ _ _ r => negb r && no_random s
   | Project s _ _ _ _ _ | SelectRows s _ _ | SelectCols s _ | DropCols s _ | OrderRows s _ _ _ | MapCols s _ _ | Rename s _
   | ConvertRecords s _ _ _ _ _ _ => no_random s
-  | NaturalJoin a b _ _ _ _ | ConcatRows a b _ => no_random a && no_random b
+  | NaturalJoin a b _ _ _ _ _ | ConcatRows a b _ => no_random a && no_random b
   end.
 
 (* ================================================================== Pandas executor: pandas_base.py, step by step *)
@@ -287,49 +287,75 @@ Definition step_map_cols (m : list (string * string)) (dels : list string) (res 
   bind (derive KMapCols res (fr_rename m)) (fun a => if isnil dels then ret a else derive KMapCols a (fr_keep dels)).
 Definition step_rename (m : list (string * string)) (res : loc) : M loc := derive KRename res (fr_rename m).
 
-(* _natural_join_step *)
-Definition scratch : string := "data_algebra_temp_merge_col".
-Definition sfx (c : string) : string := (c ++ "_tmp_right_col")%string.
+(* _natural_join_step.  Scratch names are chosen away from the columns of both sides (_unused_column_name; the right
+   suffix grows by "_" until no `c + suffix` is in use).  `left` / `right` are the objects returned by the evaluation of the
+   two sources, i.e. allocated by this evaluation: the scratch key (no keys) and the null-key marker (both sides have a row
+   with a null key -- data dependent, oracle `nullkeys`) are written into them in place. *)
+Fixpoint unused_name (fuel : nat) (base : string) (taken : list string) : string :=
+  match fuel with 0 => base | S k => if mem base taken then unused_name k ("_" ++ base)%string taken else base end.
+Fixpoint unused_sfx (fuel : nat) (sx : string) (common taken : list string) : string :=
+  match fuel with
+  | 0 => sx
+  | S k => if existsb (fun c => mem (c ++ sx)%string taken) common then unused_sfx k (sx ++ "_")%string common taken else sx
+  end.
+Definition in_use (fl fr : frame) : list string := f_cols fl ++ f_cols fr.
+Definition join_scratch (fl fr : frame) : string := unused_name (S (List.length (in_use fl fr))) "data_algebra_temp_merge_col" (in_use fl fr).
+Definition join_nullcol (fl fr : frame) : string := unused_name (S (List.length (in_use fl fr))) "data_algebra_temp_null_key_col" (in_use fl fr).
+Definition join_sfx (fl fr : frame) : string :=
+  unused_sfx (S (List.length (in_use fl fr))) "_tmp_right_col" (inter (f_cols fl) (f_cols fr)) (in_use fl fr).
 Definition same_keys (on_a on_b : list string) : list string :=
   map fst (filter (fun ab => String.eqb (fst ab) (snd ab)) (combine on_a on_b)).
-Definition fr_merge (on_a on_b : list string) (jt : string) (nr : nat) (a b : frame) : frame :=
+Definition fr_merge (sx : string) (on_a on_b : list string) (jt : string) (nr : nat) (a b : frame) : frame :=
   mkframe IxRange
-          (f_cols a ++ map (fun c => if mem c (f_cols a) then sfx c else c) (diff (f_cols b) (same_keys on_a on_b)))
+          (f_cols a ++ map (fun c => if mem c (f_cols a) then (c ++ sx)%string else c) (diff (f_cols b) (same_keys on_a on_b)))
           nr (PF "merge" (jt :: on_a ++ "/" :: on_b) [f_data a; f_data b]).
 Definition fr_locset (c : string) (f : frame) : frame :=
   mkframe (f_index f) (f_cols f) (f_nrows f) (PF "coalesce" [c] [f_data f]).
-Definition c_coalesce (cs : list string) (f : frame) : frame :=
-  fold_left (fun g c => fr_keep [sfx c] (fr_locset c g)) cs f.
-Fixpoint coalesce_loop (cs : list string) (l : loc) : M loc :=
+Definition c_coalesce (sx : string) (cs : list string) (f : frame) : frame :=
+  fold_left (fun g c => fr_keep [(c ++ sx)%string] (fr_locset c g)) cs f.
+Fixpoint coalesce_loop (sx : string) (cs : list string) (l : loc) : M loc :=
   match cs with
   | [] => ret l
   | c :: t => bind (wr KJoin l [WLocSet] (fr_locset c)) (fun _ =>                          (* res.loc[is_null, c] = ... *)
-              bind (derive KJoin l (fr_keep [sfx c])) (fun l' => coalesce_loop t l'))      (* res = res.drop(c_tmp, axis=1) *)
+              bind (derive KJoin l (fr_keep [(c ++ sx)%string])) (fun l' => coalesce_loop sx t l'))  (* res = res.drop(c + suffix, axis=1) *)
   end.
-Definition join_keys (on_a : list string) : list string := if isnil on_a then [scratch] else on_a.
-Definition c_join (on_a on_b : list string) (jt : string) (nr : nat) (fl fr : frame) : frame :=
+Definition join_keys (on_ : list string) (sc nk : string) (nullkeys : bool) : list string :=
+  (if isnil on_ then [sc] else on_) ++ (if nullkeys then [nk] else []).
+Definition c_join (on_a on_b : list string) (jt : string) (nullkeys : bool) (nr : nat) (fl fr : frame) : frame :=
   if Nat.eqb (f_nrows fl) 0 && Nat.eqb (f_nrows fr) 0 then fr_empty (f_cols fl ++ diff (f_cols fr) (f_cols fl))
   else
     let common := inter (f_cols fl) (f_cols fr) in
-    let fl' := if isnil on_a then fr_set [scratch] "const" [] fl else fl in
-    let fr' := if isnil on_a then fr_set [scratch] "const" [] fr else fr in
-    let m := f_reset (fr_merge (join_keys on_a) (join_keys on_b) jt nr fl' fr') in
-    let m' := if isnil on_a then fr_del [scratch] m else m in
-    f_reset (c_coalesce (diff common on_a) m').
-Definition step_join (on_a on_b : list string) (jt : string) (nr : nat) (left right : loc) : M loc :=
+    let sc := join_scratch fl fr in
+    let nk := join_nullcol fl fr in
+    let fl1 := if isnil on_a then fr_set [sc] "const" [] fl else fl in
+    let fr1 := if isnil on_a then fr_set [sc] "const" [] fr else fr in
+    let fl2 := if nullkeys then fr_set [nk] "nullmark" [] fl1 else fl1 in
+    let fr2 := if nullkeys then fr_set [nk] "nullmark" [] fr1 else fr1 in
+    let m := f_reset (fr_merge (join_sfx fl fr) (join_keys on_a sc nk nullkeys) (join_keys on_b sc nk nullkeys) jt nr fl2 fr2) in
+    let m1 := if isnil on_a then fr_del [sc] m else m in
+    let m2 := if nullkeys then fr_del [nk] m1 else m1 in
+    f_reset (c_coalesce (join_sfx fl fr) (diff common (same_keys on_a on_b)) m2).
+Definition step_join (on_a on_b : list string) (jt : string) (nullkeys : bool) (nr : nat) (left right : loc) : M loc :=
   bind (rd KJoin left) (fun fl => bind (rd KJoin right) (fun fr =>
   if Nat.eqb (f_nrows fl) 0 && Nat.eqb (f_nrows fr) 0
   then new KJoin (fr_empty (f_cols fl ++ diff (f_cols fr) (f_cols fl)))
   else
     bind (if isnil on_a
-          then bind (wr KJoin left [WSetItem] (fr_set [scratch] "const" [])) (fun _ =>       (* left[scratch_col] = 1 *)
-               wr KJoin right [WSetItem] (fr_set [scratch] "const" []))                      (* right[scratch_col] = 1 *)
+          then bind (wr KJoin left [WSetItem] (fr_set [join_scratch fl fr] "const" [])) (fun _ =>     (* left[scratch_col] = 1 *)
+               wr KJoin right [WSetItem] (fr_set [join_scratch fl fr] "const" []))                    (* right[scratch_col] = 1 *)
           else ret tt) (fun _ =>
-    bind (derive2 KJoin left right (fr_merge (join_keys on_a) (join_keys on_b) jt nr)) (fun m =>     (* pd.merge *)
+    bind (if nullkeys
+          then bind (wr KJoin left [WSetItem] (fr_set [join_nullcol fl fr] "nullmark" [])) (fun _ =>  (* left[null_key_col] = ... *)
+               wr KJoin right [WSetItem] (fr_set [join_nullcol fl fr] "nullmark" []))                 (* right[null_key_col] = ... *)
+          else ret tt) (fun _ =>
+    bind (derive2 KJoin left right (fr_merge (join_sfx fl fr) (join_keys on_a (join_scratch fl fr) (join_nullcol fl fr) nullkeys)
+                                             (join_keys on_b (join_scratch fl fr) (join_nullcol fl fr) nullkeys) jt nr)) (fun m =>     (* pd.merge *)
     bind (wr KJoin m [WResetIndex] f_reset) (fun _ =>                                        (* drop_indices(res) *)
-    bind (if isnil on_a then wr KJoin m [WDelItem] (fr_del [scratch]) else ret tt) (fun _ => (* del res[scratch_col] *)
-    bind (coalesce_loop (diff (inter (f_cols fl) (f_cols fr)) on_a) m) (fun r =>
-    bind (wr KJoin r [WResetIndex] f_reset) (fun _ => ret r)))))))).
+    bind (if isnil on_a then wr KJoin m [WDelItem] (fr_del [join_scratch fl fr]) else ret tt) (fun _ => (* del res[scratch_col] *)
+    bind (if nullkeys then wr KJoin m [WDelItem] (fr_del [join_nullcol fl fr]) else ret tt) (fun _ =>   (* del res[null_key_col] *)
+    (* for c in common_cols: if (c + right_suffix) in res.columns  <=>  c is not a same-named key pair *)
+    bind (coalesce_loop (join_sfx fl fr) (diff (inter (f_cols fl) (f_cols fr)) (same_keys on_a on_b)) m) (fun r =>
+    bind (wr KJoin r [WResetIndex] f_reset) (fun _ => ret r)))))))))).
 
 (* _concat_rows_step *)
 Definition c_idcol (idcol : option string) (f : frame) : frame :=
@@ -401,8 +427,8 @@ Fixpoint pexec (env : env_locs) (p : op) : M loc :=
   | OrderRows s by_ rev limit => bind (pexec env s) (step_order_rows by_ rev limit)
   | MapCols s m dels => bind (pexec env s) (step_map_cols m dels)
   | Rename s m => bind (pexec env s) (step_rename m)
-  | NaturalJoin a b on_a on_b jt nr =>
-      bind (pexec env a) (fun left => bind (pexec env b) (fun right => step_join on_a on_b jt nr left right))
+  | NaturalJoin a b on_a on_b jt nk nr =>
+      bind (pexec env a) (fun left => bind (pexec env b) (fun right => step_join on_a on_b jt nk nr left right))
   | ConcatRows a b idcol =>
       bind (pexec env a) (fun left => bind (pexec env b) (fun right => step_concat idcol left right))
   | ConvertRecords s hi ho mc oc nm nr => bind (pexec env s) (step_convert hi ho mc oc nm nr)
@@ -432,7 +458,7 @@ Fixpoint pcontent (e : env_frames) (p : op) : option frame :=
   | OrderRows s by_ rev limit => option_map (c_order_rows by_ rev limit) (pcontent e s)
   | MapCols s m dels => option_map (c_map_cols m dels) (pcontent e s)
   | Rename s m => option_map (fr_rename m) (pcontent e s)
-  | NaturalJoin a b on_a on_b jt nr => omap2 (c_join on_a on_b jt nr) (pcontent e a) (pcontent e b)
+  | NaturalJoin a b on_a on_b jt nk nr => omap2 (c_join on_a on_b jt nk nr) (pcontent e a) (pcontent e b)
   | ConcatRows a b idcol => omap2 (c_concat idcol) (pcontent e a) (pcontent e b)
   | ConvertRecords s hi ho mc oc nm nr => option_map (c_convert hi ho mc oc nm nr) (pcontent e s)
   end.
@@ -463,7 +489,7 @@ Definition pl_unary (p : op) (f : frame) : frame :=
   mkframe IxRange (pl_cols1 p (f_cols f)) (pl_rows1 p (f_nrows f)) (PF "polars" (pl_cols1 p (f_cols f)) [f_data f]).
 Definition pl_binary (p : op) (a b : frame) : frame :=
   match p with
-  | NaturalJoin _ _ _ _ _ nr => mkframe IxRange (f_cols a ++ diff (f_cols b) (f_cols a)) nr (PF "polars_join" [] [f_data a; f_data b])
+  | NaturalJoin _ _ _ _ _ _ nr => mkframe IxRange (f_cols a ++ diff (f_cols b) (f_cols a)) nr (PF "polars_join" [] [f_data a; f_data b])
   | ConcatRows _ _ idcol => mkframe IxRange (f_cols a ++ match idcol with Some c => [c] | None => [] end) (f_nrows a + f_nrows b)
                                     (PF "polars_concat" [] [f_data a; f_data b])
   | _ => a
@@ -472,7 +498,7 @@ Definition kind_of (p : op) : skind :=
   match p with
   | Table _ _ => KTable | Extend _ _ _ _ _ => KExtend | Project _ _ _ _ _ _ => KProject | SelectRows _ _ _ => KSelectRows
   | SelectCols _ _ => KSelectCols | DropCols _ _ => KDropCols | OrderRows _ _ _ _ => KOrderRows | MapCols _ _ _ => KMapCols
-  | Rename _ _ => KRename | NaturalJoin _ _ _ _ _ _ => KJoin | ConcatRows _ _ _ => KConcat | ConvertRecords _ _ _ _ _ _ _ => KConvert
+  | Rename _ _ => KRename | NaturalJoin _ _ _ _ _ _ _ => KJoin | ConcatRows _ _ _ => KConcat | ConvertRecords _ _ _ _ _ _ _ => KConvert
   end.
 Definition pl_table (env : env_locs) (name : string) (cols : list string) : M loc :=
   match env_get env name with
@@ -487,13 +513,31 @@ Definition pl_convert (p : op) (res : loc) : M loc :=
   bind (derive KConvert x (fr_piece "pieces")) (fun s =>
   bind (wr KConvert s [WSetColumns] (fr_setcolumns (pl_cols1 p []))) (fun _ =>
   derive2 KConvert x s (fun a _ => pl_unary p a)))).
+(* _natural_join_step (Polars): with_columns(scratch key) on both inputs when there are no keys, join(coalesce=False),
+   with_columns(when/then coalescing of every shared column), select(columns_produced): new frames only *)
+Definition pl_scratch (f : frame) : frame := mkframe IxRange (f_cols f ++ ["_da_join_scratch_key"]) (f_nrows f) (PF "with_scratch" [] [f_data f]).
+Definition pl_select (fa fb : frame) (nr : nat) (fc : frame) : frame :=
+  mkframe IxRange (f_cols fa ++ diff (f_cols fb) (f_cols fa)) nr (PF "select" [] [f_data fc]).
+Definition pl_c_join (p : op) (on_a : list string) (nr : nat) (fa fb : frame) : frame :=
+  let fa' := if isnil on_a then pl_scratch fa else fa in
+  let fb' := if isnil on_a then pl_scratch fb else fb in
+  let j := pl_binary p fa' fb' in
+  pl_select fa fb nr (if isnil (inter (f_cols fa) (f_cols fb)) then j else fr_piece "coalesce" j).
+Definition pl_join (p : op) (on_a : list string) (nr : nat) (la lb : loc) : M loc :=
+  bind (rd KJoin la) (fun fa => bind (rd KJoin lb) (fun fb =>
+  bind (if isnil on_a then derive KJoin la pl_scratch else ret la) (fun a' =>
+  bind (if isnil on_a then derive KJoin lb pl_scratch else ret lb) (fun b' =>
+  bind (derive2 KJoin a' b' (pl_binary p)) (fun j =>
+  bind (if isnil (inter (f_cols fa) (f_cols fb)) then ret j else derive KJoin j (fr_piece "coalesce")) (fun c =>
+  derive KJoin c (pl_select fa fb nr))))))).
 Fixpoint plexec (env : env_locs) (p : op) : M loc :=
   match p with
   | Table name cols => pl_table env name cols
   | Extend s _ _ _ _ | Project s _ _ _ _ _ | SelectRows s _ _ | SelectCols s _ | DropCols s _ | OrderRows s _ _ _
   | MapCols s _ _ | Rename s _ => bind (plexec env s) (fun l => derive (kind_of p) l (pl_unary p))
   | ConvertRecords s _ _ _ _ _ _ => bind (plexec env s) (pl_convert p)
-  | NaturalJoin a b _ _ _ _ | ConcatRows a b _ =>
+  | NaturalJoin a b on_a _ _ _ nr => bind (plexec env a) (fun la => bind (plexec env b) (fun lb => pl_join p on_a nr la lb))
+  | ConcatRows a b _ =>
       bind (plexec env a) (fun la => bind (plexec env b) (fun lb => derive2 (kind_of p) la lb (pl_binary p)))
   end.
 Definition plexec_st (s : store) (p : op) (env : env_locs) : option (store * loc * list event) :=
@@ -507,7 +551,8 @@ Fixpoint plcontent (e : env_frames) (p : op) : option frame :=
   | Extend s _ _ _ _ | Project s _ _ _ _ _ | SelectRows s _ _ | SelectCols s _ | DropCols s _ | OrderRows s _ _ _
   | MapCols s _ _ | Rename s _ => option_map (pl_unary p) (plcontent e s)
   | ConvertRecords s _ _ _ _ _ _ => option_map (fun f => pl_unary p (fr_piece "collect" f)) (plcontent e s)
-  | NaturalJoin a b _ _ _ _ | ConcatRows a b _ => omap2 (pl_binary p) (plcontent e a) (plcontent e b)
+  | NaturalJoin a b on_a _ _ _ nr => omap2 (pl_c_join p on_a nr) (plcontent e a) (plcontent e b)
+  | ConcatRows a b _ => omap2 (pl_binary p) (plcontent e a) (plcontent e b)
   end.
 
 (* ------------------------------------------------------------------ trace observations used by theorems and the case driver *)
